@@ -186,7 +186,15 @@ fn gen_hs(run: &mut Run, prop: &str, seed: u64, thorough: bool) {
                                 "C11" => vec![Fault::OutOfTurn],
                                 "C12" => vec![Fault::MissingPsk],
                                 "C17" => vec![Fault::ReadTamper(Tamper::Flip { field: lay[k].len() - 1, at_end: true }), Fault::ReadCapShort(1)],
-                                _ => kinds.clone(),
+                                _ => {
+                                    // a psk that is set only after a first, failing attempt (the failure comes in
+                                    // the middle of the token loop when the psk token is not the first one)
+                                    let mut v = kinds.clone();
+                                    if inst.msgs[k].iter().any(|t| matches!(t, Tok::Psk(_))) {
+                                        v.insert(0, Fault::MissingPsk);
+                                    }
+                                    v
+                                },
                             };
                             // spread the kinds over scenarios, `nfaults` per scenario
                             let take = if matches!(prop, "C03" | "C14" | "C10" | "C07" | "C06" | "C19") && (thorough || pi % 2 == rep % 2 || prop == "C03") { chosen.len() } else { nfaults.min(chosen.len()) };
@@ -490,18 +498,60 @@ fn gen_transport(run: &mut Run, prop: &str, seed: u64, thorough: bool) {
                 }
                 let res_s = if res == "ring" { "fb(ring,default)" } else { res };
                 let cfg = TransportCfg { name: (*n).into(), res_i: res_s.into(), res_r: if res == "ring" && rep % 2 == 0 { "default".into() } else { res_s.into() }, seed: r.next(), steps: if thorough { 120 } else { 60 } };
-                if matches!(prop, "C04" | "C05" | "C09" | "C15" | "C14" | "C19" | "C10" | "C11" | "C07" | "C06" | "C20") {
+                if matches!(prop, "C01" | "C02" | "C04" | "C05" | "C09" | "C15" | "C14" | "C19" | "C10" | "C11" | "C07" | "C06" | "C20") {
                     let mut sc = Sc::new();
                     run_transport(&cfg, &mut sc);
                     run.add("transport", format!("{prop} transport {n} {res} #{rep}"), sc);
                 }
-                if matches!(prop, "C04" | "C09" | "C16" | "C15" | "C10" | "C19" | "C14" | "C06" | "C07") {
+                if matches!(prop, "C01" | "C02" | "C04" | "C05" | "C09" | "C16" | "C15" | "C10" | "C19" | "C14" | "C06" | "C07") {
                     let mut sc = Sc::new();
                     run_stateless(&cfg, &mut sc);
                     run.add("stateless", format!("{prop} stateless {n} {res} #{rep}"), sc);
                 }
                 let _ = i;
             }
+        }
+    }
+}
+
+
+/// Failure-and-retry scenarios for the properties about *honest* behaviour (C01, C02): on every pattern, with the toy
+/// suite and fixed ephemerals, one failing call per message (writer: buffer too small inside the last fixed field,
+/// reader: payload buffer too small), then the genuine call. The bytes must equal those of
+/// the fault-free twin (so also the specification's, which the twin is compared with through the model).
+fn gen_hs_retry_light(run: &mut Run, prop: &str, seed: u64, thorough: bool) {
+    let pats = pattern_names();
+    let mut r = Rng64(seed ^ 0x7265747279);
+    for (pi, p) in pats.iter().enumerate() {
+        let nm = inst_of(p, &[]).map_or(1, |x| x.msgs.len());
+        let pskn = ((seed as usize + pi) % (nm + 1)) as u8;
+        for psks in [vec![], vec![pskn]] {
+            if !thorough && !psks.is_empty() && (pi + seed as usize) % 3 != 0 {
+                continue;
+            }
+            let mut cfg = base_cfg(p, pi, r.next(), false);
+            cfg.psks = psks;
+            cfg.fixed_e = true;
+            let Some(inst) = inst_of(p, &cfg.psks) else { continue };
+            let lay = layout(&inst, !cfg.psks.is_empty());
+            for k in 0..nm {
+                let nf = lay[k].len();
+                cfg.faults.push((k, Fault::WriteCapInField(nf.saturating_sub(1))));
+                // (an altered cleartext payload would be accepted and is C03's subject, not a retry)
+                cfg.payload_lens[k] = cfg.payload_lens[k].max(1);
+                cfg.faults.push((k, Fault::ReadCapShort(1)));
+            }
+            let mut sc = Sc::new();
+            let tr = run_hs(&cfg, &mut sc);
+            let mut twin = cfg.clone();
+            twin.faults.clear();
+            let mut sc2 = Sc::new();
+            let tr2 = run_hs(&twin, &mut sc2);
+            if tr.finished != tr2.finished || tr.msgs != tr2.msgs || tr.hh != tr2.hh || tr.transport != tr2.transport {
+                sc.viol(prop, format!("{}: after failed calls and retries the messages differ from those of the run without failures (finished {} / {}, messages equal {}, hash equal {}, transport equal {})", cfg.name(), tr.finished, tr2.finished, tr.msgs == tr2.msgs, tr.hh == tr2.hh, tr.transport == tr2.transport));
+                sc.viol("C07", format!("{}: bytes after failed calls differ from the fault-free twin", cfg.name()));
+            }
+            run.add("hs", format!("{prop} retry {}", cfg.name()), sc);
         }
     }
 }
@@ -581,10 +631,14 @@ fn run_prop(prop: &str, thorough: bool, seed: u64) -> Run {
         "C01" => {
             gen_tokens(&mut run, seed, thorough);
             gen_hs(&mut run, prop, seed, thorough);
+            gen_hs_retry_light(&mut run, prop, seed, thorough);
+            gen_transport(&mut run, prop, seed, false);
             prim::gen_prim(&mut run, seed, thorough, true);
         },
         "C02" => {
             gen_hs(&mut run, prop, seed, thorough);
+            gen_hs_retry_light(&mut run, prop, seed, thorough);
+            gen_transport(&mut run, prop, seed, false);
         },
         "C03" => {
             gen_hs(&mut run, prop, seed, thorough);
